@@ -4,8 +4,8 @@
   on every check; the code it calls is a record `Env` of callbacks) against the hand-written model `Msg/Stream.lean`
   (`scan` / `scanFuel` / `step`).
 
-  * `decOf`, `filterOf`, `cfgOf`: the model's parameters (`Dec`, filter, `Cfg`) that a record of callbacks gives;
-    `toErr`: the model's error class of a Python exception (library error = instance of `PyBufrKitError`).
+  * `srcDec`, `srcFilter`, `srcCfg`: the model's parameters (`Dec`, filter, `Cfg`) that a record of callbacks gives;
+    `srcErr`: the model's error class of a Python exception (library error = instance of `PyBufrKitError`).
   * `seqFind_findSig`, `sliceSeq_from`, `sliceSeq_span`: `bytes.find(sig, i)`, `s[i:]`, `s[i:i+n]` against `findSig`,
     `drop`, `take`.
   * `body_step`: one iteration of the translated loop at a found signature = the model's `step`.
@@ -20,27 +20,27 @@ namespace Bufr.Stream
 open PyGen.decoder PyGen.decoder.generate_bufr_message
 
 /-- the model's error class of a Python exception: a library error is an instance of `PyBufrKitError` -/
-def toErr (env : Env) (e : Py.Exc) : Err := if env.isinstance_PyBufrKitError e then .lib else .other
+def srcErr (env : Env) (e : Py.Exc) : Err := if env.isinstance_PyBufrKitError e then .lib else .other
 
-theorem toErr_isLib (env : Env) (e : Py.Exc) : (toErr env e).isLib = env.isinstance_PyBufrKitError e := by
-  unfold toErr; cases env.isinstance_PyBufrKitError e <;> rfl
+theorem srcErr_isLib (env : Env) (e : Py.Exc) : (srcErr env e).isLib = env.isinstance_PyBufrKitError e := by
+  unfold srcErr; cases env.isinstance_PyBufrKitError e <;> rfl
 
 /-- the model's per-offset decoder given by the callback `decoder.process(rest, start_signature=None, info_only=b)` -/
-def decOf (env : Env) : Dec Msg := fun io rest =>
+def srcDec (env : Env) : Dec Msg := fun io rest =>
   match env.decoder_process rest io with
   | .ok m => .ok { consumed := m.serialized_bytes.length, declared := m.length_value.toNat, msg := m }
-  | .error e => .error (toErr env e)
+  | .error e => .error (srcErr env e)
 
 /-- the model's filter given by the callback `sr.run(msg)` of the `ScriptRunner` object `sr` -/
-def filterOf (env : Env) (sr : Py.Obj) : MsgInfo Msg → Except Err Bool := fun mi =>
+def srcFilter (env : Env) (sr : Py.Obj) : MsgInfo Msg → Except Err Bool := fun mi =>
   match env.sr_run sr mi.msg with
   | .ok b => .ok b
-  | .error e => .error (toErr env e)
+  | .error e => .error (srcErr env e)
 
 /-- the model's configuration for the arguments of `generate_bufr_message` (`if filter_expr:` is the truth value of a
     `str` or `None`: `None` and `''` mean "no filter") -/
-def cfgOf (env : Env) (io coe : Bool) (fe : Option (List Char)) (sr : Py.Obj) : Cfg Msg :=
-  { infoOnly := io, continueOnError := coe, filter := if Py.truthyOptSeq fe then some (filterOf env sr) else none }
+def srcCfg (env : Env) (io coe : Bool) (fe : Option (List Char)) (sr : Py.Obj) : Cfg Msg :=
+  { infoOnly := io, continueOnError := coe, filter := if Py.truthyOptSeq fe then some (srcFilter env sr) else none }
 
 /-- the message object the generator yields for an item of the model: in info-only mode its `serialized_bytes` were
     replaced by the slice of the stream -/
@@ -150,7 +150,7 @@ structure CbOk (env : Env) : Prop where
 def StepOk (env : Env) (s : Bytes) (io coe : Bool) (fe : Option (List Char)) (sro : Option Py.Obj) (v : Locals) (p : Nat)
     (r : Step Msg) (g : Py.Flow Locals) : Prop :=
   match r with
-  | .fail e => ∃ x v', g = .raise x v' ∧ toErr env x = e ∧ v'.py_yields = v.py_yields
+  | .fail e => ∃ x v', g = .raise x v' ∧ srcErr env x = e ∧ v'.py_yields = v.py_yields
   | .adv n y => ∃ v' j', g = .next v' ∧ Inv s io coe fe sro v' j' ∧
       (j' = p + n ∨ (s.length ≤ j' ∧ s.length ≤ p + n)) ∧ (n = 0 → j' = p) ∧
       v'.py_yields = v.py_yields ++ (yielded p y).map (pyMsg io)
@@ -158,8 +158,8 @@ def StepOk (env : Env) (s : Bytes) (io coe : Bool) (fe : Option (List Char)) (sr
 theorem take_length_min (l : Bytes) (n : Nat) : (l.take n).length = min n l.length := by simp
 
 local macro "bsimp" "[" extra:Lean.Parser.Tactic.simpLemma,* "]" : tactic => `(tactic|
-  simp [StepOk, step, tryBody, decodeHere, decOf, cfgOf, filterOf, while_1.body, Py.Flow.bind, Py.Flow.eval,
-    Py.Flow.tryExcept, yielded, pyMsg, toErr, Err.isLib, Py.unwrapAttr, bind, Except.bind, $extra,*])
+  simp [StepOk, step, tryBody, decodeHere, srcDec, srcCfg, srcFilter, while_1.body, Py.Flow.bind, Py.Flow.eval,
+    Py.Flow.tryExcept, yielded, pyMsg, srcErr, Err.isLib, Py.unwrapAttr, bind, Except.bind, $extra,*])
 
 /-- closes an `adv` goal left by `bsimp`: the witness is the new scan position -/
 local macro "close_adv" w:term : tactic => `(tactic|
@@ -176,7 +176,7 @@ theorem body_step (env : Env) (hcb : CbOk env) (s : Bytes) (io coe : Bool) (fe :
     (sro : Option Py.Obj) (sr : Py.Obj) (hsro : Py.truthyOptSeq fe = true → sro = some sr)
     (v : Locals) (j k : Nat) (hinv : Inv s io coe fe sro v j) (hj : j ≤ s.length)
     (hk : findSig (s.drop j) = some k) :
-    StepOk env s io coe fe sro v (j + k) (step (decOf env) (cfgOf env io coe fe sr) (s.drop (j + k)))
+    StepOk env s io coe fe sro v (j + k) (step (srcDec env) (srcCfg env io coe fe sr) (s.drop (j + k)))
       (while_1.body env v) := by
   obtain ⟨vs, vio, vcoe, vfe, vsr, vidx, vmatched, vmsg, vu, vb, vd, ve, vy⟩ := v
   obtain ⟨h1, h2, h3, h4, h5, h6⟩ := hinv
@@ -194,7 +194,7 @@ theorem body_step (env : Env) (hcb : CbOk env) (s : Bytes) (io coe : Bool) (fe :
   have hinvl := hcb.inv
   have hadd := hcb.add
   have hrl : 4 ≤ (vs.drop p).length := by simp only [List.length_drop]; omega
-  have hexc : ∀ e : Py.Exc, toErr env e = (if env.isinstance_PyBufrKitError e then Err.lib else Err.other) := fun _ => rfl
+  have hexc : ∀ e : Py.Exc, srcErr env e = (if env.isinstance_PyBufrKitError e then Err.lib else Err.other) := fun _ => rfl
   cases hft : Py.truthyOptSeq vfe with
   | false =>
     cases hr : env.decoder_process (vs.drop p) vio with
@@ -329,7 +329,7 @@ theorem stuck (env : Env) (hcb : CbOk env) (s : Bytes) (io coe : Bool) (fe : Opt
     (sro : Option Py.Obj) (sr : Py.Obj) (hsro : Py.truthyOptSeq fe = true → sro = some sr) (y : Option (Bytes × MsgInfo Msg))
     (ym : List Msg) :
     ∀ (fuel : Nat) (v : Locals) (j k : Nat), Inv s io coe fe sro v j → j ≤ s.length → findSig (s.drop j) = some k →
-      step (decOf env) (cfgOf env io coe fe sr) (s.drop (j + k)) = .adv 0 y →
+      step (srcDec env) (srcCfg env io coe fe sr) (s.drop (j + k)) = .adv 0 y →
       (∀ q, yieldsOf io (yielded q y) = ym) →
       ∃ v', while_1.loop env fuel v = .raise .outOfFuel v' ∧
         v'.py_yields = v.py_yields ++ (List.replicate fuel ym).flatten := by
@@ -362,14 +362,14 @@ theorem stuck (env : Env) (hcb : CbOk env) (s : Bytes) (io coe : Bool) (fe : Opt
 def LoopOk (env : Env) (io : Bool) (ys : List Msg) (r : List (Item Msg) × Outcome) (g : Py.Flow Locals) : Prop :=
   match r.2 with
   | .done => ∃ v', (g = .next v' ∨ g = .ret v') ∧ v'.py_yields = ys ++ yieldsOf io r.1
-  | .error e => ∃ x v', g = .raise x v' ∧ toErr env x = e ∧ v'.py_yields = ys ++ yieldsOf io r.1
+  | .error e => ∃ x v', g = .raise x v' ∧ srcErr env x = e ∧ v'.py_yields = ys ++ yieldsOf io r.1
   | .loops => ∃ v', g = .raise .outOfFuel v' ∧ (ys ++ yieldsOf io r.1) <+: v'.py_yields
 
 theorem loop_sim (env : Env) (hcb : CbOk env) (s : Bytes) (io coe : Bool) (fe : Option (List Char))
     (sro : Option Py.Obj) (sr : Py.Obj) (hsro : Py.truthyOptSeq fe = true → sro = some sr) :
     ∀ (fuel : Nat) (v : Locals) (j p : Nat), Inv s io coe fe sro v j →
       (j = p ∨ (s.length ≤ j ∧ s.length ≤ p)) → s.length - j < fuel →
-      LoopOk env io v.py_yields (scanFuel (decOf env) (cfgOf env io coe fe sr) fuel p (s.drop p))
+      LoopOk env io v.py_yields (scanFuel (srcDec env) (srcCfg env io coe fe sr) fuel p (s.drop p))
         (while_1.loop env fuel v) := by
   intro fuel
   induction fuel with
@@ -397,7 +397,7 @@ theorem loop_sim (env : Env) (hcb : CbOk env) (s : Bytes) (io coe : Bool) (fe : 
       | some k =>
         have hb := body_step env hcb s io coe fe sro sr hsro v j k hinv hj hk
         simp only [scanFuel, hk, List.drop_drop]
-        cases hstep : step (decOf env) (cfgOf env io coe fe sr) (s.drop (j + k)) with
+        cases hstep : step (srcDec env) (srcCfg env io coe fe sr) (s.drop (j + k)) with
         | fail e =>
           rw [hstep] at hb
           obtain ⟨x, v', hb1, hx, hy⟩ := hb
@@ -425,7 +425,7 @@ theorem loop_sim (env : Env) (hcb : CbOk env) (s : Bytes) (io coe : Bool) (fe : 
             rw [hloop]
             simp only [LoopOk] at ih1 ⊢
             rw [hy1] at ih1
-            cases hout : (scanFuel (decOf env) (cfgOf env io coe fe sr) fuel (j + k + (n + 1)) (s.drop (j + k + (n + 1)))).2 with
+            cases hout : (scanFuel (srcDec env) (srcCfg env io coe fe sr) fuel (j + k + (n + 1)) (s.drop (j + k + (n + 1)))).2 with
             | done =>
               rw [hout] at ih1
               simpa [yieldsOf, List.append_assoc] using ih1
@@ -445,12 +445,12 @@ theorem loop_sim (env : Env) (hcb : CbOk env) (s : Bytes) (io coe : Bool) (fe : 
 def Agrees (env : Env) (io : Bool) (r : List (Item Msg) × Outcome) (g : List Msg × Except Py.Exc Unit) : Prop :=
   match r.2 with
   | .done => g = (yieldsOf io r.1, .ok ())
-  | .error e => ∃ x, g = (yieldsOf io r.1, .error x) ∧ toErr env x = e
+  | .error e => ∃ x, g = (yieldsOf io r.1, .error x) ∧ srcErr env x = e
   | .loops => g.2 = .error .outOfFuel ∧ yieldsOf io r.1 <+: g.1
 
 theorem generate_sim (env : Env) (hcb : CbOk env) (s : Bytes) (io coe : Bool) (fe : Option (List Char)) (sr : Py.Obj)
     (hsr : fe.isSome = true → env.ScriptRunner fe = .ok sr) :
-    Agrees env io (scan (decOf env) (cfgOf env io coe fe sr) s) (generate_bufr_message env s io coe fe) := by
+    Agrees env io (scan (srcDec env) (srcCfg env io coe fe sr) s) (generate_bufr_message env s io coe fe) := by
   let sro : Option Py.Obj := if fe.isSome then some sr else none
   have hsro : Py.truthyOptSeq fe = true → sro = some sr := by
     intro h
@@ -473,7 +473,7 @@ theorem generate_sim (env : Env) (hcb : CbOk env) (s : Bytes) (io coe : Bool) (f
   simp only [List.drop_zero] at hl
   unfold scan
   simp only [LoopOk, Agrees, hv0, List.nil_append] at hl ⊢
-  cases hout : (scanFuel (decOf env) (cfgOf env io coe fe sr) (s.length + 1) 0 s).2 with
+  cases hout : (scanFuel (srcDec env) (srcCfg env io coe fe sr) (s.length + 1) 0 s).2 with
   | done =>
     rw [hout] at hl
     obtain ⟨v', hg, hy⟩ := hl
